@@ -73,6 +73,8 @@ def check_balance(net, ac, tol_abs, opts=None):
         return [common.viol("result tables unusable: %r" % (e,))], tags, False
     nontrivial = False
     bad = []
+    # pandapower applies tolerance_mva to the per-unit mismatch (finding F34): the achievable balance scales with net.sn_mva
+    tol_abs = max(tol_abs, 20 * float((opts or {}).get("tolerance_mva", 1e-8)) * float(net.sn_mva))
     for grp, m, scale, kinds, energized in res:
         if not energized:
             continue
